@@ -22,7 +22,7 @@ def gen_obligation(e):
     name = p['name']
     if not e['compiled']:
         return None, e['why']
-    if not engine.modelled_H(p):
+    if not engine.modelled_C(p):
         return None, 'engine class %s%s not in the proved fragment' % (p['eclass'], ' with middle timings' if p['middle'] else '')
     if m['status'].get('encode') != 'ok' or m['status'].get('decode') != 'ok':
         return None, m['status'].get('encode') if m['status'].get('encode') != 'ok' else m['status'].get('decode')
@@ -130,6 +130,19 @@ def corruptions(p, frame, rng, n):
     return out
 
 
+def field_at(p, frame, pos):
+    """name of the parameter whose bits the data symbol at list position `pos` carries (pair tables), for the signature"""
+    nli = len(p['lead_in'])
+    if pos < nli:
+        return 'lead-in'
+    k = {2: 1, 4: 2, 16: 4}.get(len(p['bursts']), 1)
+    bit = ((pos - nli) // 2) * k
+    for nm, start, stop in p['parameters']:
+        if start <= bit <= stop:
+            return nm
+    return 'beyond'
+
+
 def search(ctx, protos, per, nsub):
     from pyIRDecoder import IRException
     hits = {}
@@ -158,9 +171,9 @@ def search(ctx, protos, per, nsub):
                     ctx.passed(name, dict(kind=kind))
                     continue
                 hits[name] = True
-                ctx.report(name, 'corrupted frame decoded as parameters that do not encode it', dict(kind=kind),
-                           dict(protocol=name, params=a, corruption=kind, position=pos, frame=g, why=r))
-                break
+                fld = field_at(p, f, pos) if kind == 'substitute' else kind
+                ctx.report(name, 'corrupted frame decoded as parameters that do not encode it', dict(kind=kind, sig=kind + ':' + fld),
+                           dict(protocol=name, params=a, corruption=kind, position=pos, field=fld, frame=g, why=r))
             # the same on a decoder that has just decoded the intact frame (a key is held): a corrupted frame must not come back as
             # the held key either
             for kind, pos, g in sorted(corruptions(p, f, rng, 10 ** 6), key=lambda x: (x[0], x[1], x[2])):          # every data position
@@ -182,9 +195,9 @@ def search(ctx, protos, per, nsub):
                 if r is True or r is None:
                     continue
                 hits[name] = True
-                ctx.report(name, 'corrupted frame decoded as the held key', dict(kind=kind),
-                           dict(protocol=name, params=a, corruption=kind, position=pos, frame=g, why=r))
-                break
+                fld = field_at(p, f, pos)
+                ctx.report(name, 'corrupted frame decoded as the held key', dict(kind=kind, sig=kind + ':' + fld),
+                           dict(protocol=name, params=a, corruption=kind, position=pos, field=fld, frame=g, why=r))
     return hits
 
 
@@ -192,10 +205,14 @@ def run(ctx):
     vlib.import_repo()
     info = perproto.prepare_models(ctx)
     protos = [e['p'] for e in info.values()]
-    hits = search(ctx, protos, 2 if ctx.tier == 'quick' else 32, 6 if ctx.tier == 'quick' else 64)
+    hits = search(ctx, protos, 8 if ctx.tier == 'quick' else 32, 6 if ctx.tier == 'quick' else 64)
     results = perproto.run_obligations(ctx, 'C05', info, gen_obligation, timeout=120)
     vlib.check_props_file(ctx, 'C05')
     perproto.settle(ctx, 'C05', results, hits)
+    # the decode trees compare fields with `==` / `!=`: the model's reading of those operators (value comparison, widths play
+    # no part) is tied to IntegerWrapper's on every run
+    import props.c19 as c19
+    c19.corr_cmp(ctx)
     # correspondence: parse model on corrupted frames; decode trees on arbitrary field contents
     import protocorr
     modelled = [info[n]['p'] for n in results if results[n]['status'] == 'proved']
